@@ -151,21 +151,31 @@ func H_roundtrip_prefix() {
 	P := symParam("P", 70)
 	k := symParam("KSYM", 1)
 	alpha := symParam("ALPHA", 0)
-	file := [...]string{"testdata/gettysburg.txt", "testdata/pi.txt", "testdata/e.txt"}[symParam("FILE", 0)]
+	file := [...]string{"testdata/gettysburg.txt", "testdata/pi.txt", "testdata/e.txt", "testdata/Mark.Twain-Tom.Sawyer.txt"}[symParam("FILE", 0)]
 	data, err := os.ReadFile(file)
 	symAssume(err == nil && len(data) >= P+8)
-	in := append([]byte(nil), data[:P]...)
+	// SYMPOS (default P): where the symbolic bytes go; an early position with a
+	// long P puts them before the adaptive-tree rebuild (frequency 0x8000)
+	sp := symParam("SYMPOS", P)
+	in := append([]byte(nil), data[:sp]...)
 	for i := 0; i < k; i++ {
 		in = append(in, symAlphaByte(alpha))
 	}
-	in = append(in, data[P:P+8]...)
+	in = append(in, data[sp:P+8]...)
+	if P > 10000 {
+		symBudget(2000000000)
+	}
 	z, err := compress(in, len(in), true)
 	symAssert(err == nil, "writer-close-ok")
 	out, rerr, cerr := decompress(z, true, 64, len(in)+3)
 	symAssert(rerr == nil && cerr == nil, "reader-ok")
 	symAssert(sameBytes(out, in), "roundtrip-reproduces-input")
+	before := refReconstCount
 	ref, _ := refDecode(z[6:], len(in), len(in)+64)
 	symAssert(sameBytes(ref, in), "reference-decoder-reproduces-input")
+	if refReconstCount > before {
+		symReach("tree-rebuilt")
+	}
 	symReach("end")
 }
 
